@@ -33,7 +33,8 @@ def scenarios(rng, tier):
                 elif r < 0.25: s.frame(0, generic(rng.randrange(256), rng.choice([1, 2]), a, a, own, own))
             nq = kk // cap + 1 + rng.choice([0, 1]) if rng.random() < 0.8 else 1
             for q in range(nq):
-                s.frame(0, query(M, own, seq=rng.randrange(1, 65536), esrc=ME))
+                # the Query may arrive by another path than the frame that opened the session (direct / through a bridge)
+                s.frame(0, query(M, own, seq=rng.randrange(1, 65536), esrc=rng.choice([ME, ME, M, mac(41)])))
             if rng.random() < 0.25: s.frame(0, reset(M)); s.frame(0, discover(M, gen=1, esrc=ME))
     return [(s.text(), {})]
 def project(blk, name, meta):
